@@ -30,7 +30,17 @@ def run(ctx):
     for i in range(n1 + n2):
         cfgp, script = D.random_session(rng, big=i >= n1)
         t2.append(D.session(cfgp, script))
-    ctx.validate("KdqTree", t2, "random sessions (1-4 dims, up to 400 points)", sabotage=D.sabotage,
+    # a few sessions with LARGE fills (thousands of rows, with and without reset): counts must still be exact
+    for i in range(2 if q else 10):
+        d = rng.randint(1, 3)
+        data = D.random_points(rng, 300, d, "clusters")
+        big = D.random_points(rng, rng.randint(5000, 9000), d, "clusters")
+        big2 = D.random_points(rng, rng.randint(4097, 6000), d, "wide")
+        cfgp = {"ub": rng.choice([8, 20]), "lbnum": 0, "lbden": 4}
+        script = [("build", data), ("fill", big, 2, True), ("kl", 1, 2), ("fill", big2, 2, True), ("kl", 1, 2), ("fill", big, 3, False),
+                  ("fill", big2, 3, False), ("kl", 2, 3)]
+        t2.append(D.session(cfgp, script))
+    ctx.validate("KdqTree", t2, "random sessions (1-4 dims, up to 400 points) + large fills", sabotage=D.sabotage,
                  replay=lambda i: {"cfg": t2[i]["cfg"], "script": t2[i]["script"]},
                  nontrivial=lambda t: not t["ev"][0]["tree"]["leaf"])
     ctx.assumptions += ["data are integer-valued (all quantities of the construction are then exact in the specification)",
